@@ -50,6 +50,8 @@ type Scenario struct {
 	// Single runs only the default schedule (no alternatives): for scenarios whose
 	// point is the input or history, with too many threads to interleave.
 	Single bool
+	// MemPB is the preemption bound of the plain-memory pass (0: the default, 2; <0: no such pass).
+	MemPB int
 }
 
 // Harness is a set of scenarios per tier.
@@ -260,7 +262,9 @@ func (e *explorer) visit(key uint64, pre, dev int) bool {
 
 // node runs the execution for prefix and returns the child prefixes within bounds.
 func (e *explorer) node(prefix []int, trace bool) [][]int {
-	r, x := e.runOne(prefix, trace, !trace && (!e.scn.Single || e.mem != nil))
+	// no state caching in the plain-memory pass: the happens-before hash orders racing
+	// accesses by their announcements, which is not the order in which they take effect
+	r, x := e.runOne(prefix, trace, !trace && !e.scn.Single && e.mem == nil)
 	e.rep.Execs++
 	e.rep.Steps += int64(r.Steps)
 	if len(r.Choices) > e.rep.MaxChoices {
@@ -283,6 +287,9 @@ func (e *explorer) node(prefix []int, trace bool) [][]int {
 	}
 	if r.Pruned {
 		e.rep.Pruned++
+		if os.Getenv("VX_DEBUG") != "" {
+			fmt.Fprintf(os.Stderr, "PRUNED %v at choice %d step %d\n", prefix, len(r.Choices), r.Steps)
+		}
 	} else {
 		if r.Horizon {
 			e.rep.Horizon++
@@ -817,13 +824,17 @@ scnLoop:
 				// schedule a plain-memory pass if there are (new) racing sites
 				l := memSorted()
 				key := strings.Join(l, ",")
-				if len(l) == 0 || key == lastMemSet || memRounds >= 3 || !st.Exhaustive {
+				if len(l) == 0 || key == lastMemSet || memRounds >= 3 || !st.Exhaustive || sc.MemPB < 0 {
 					break
+				}
+				mpb := memPB
+				if sc.MemPB > 0 {
+					mpb = sc.MemPB
 				}
 				lastMemSet = key
 				memRounds++
 				st.MemSites = l
-				for pb := 0; pb <= memPB; pb++ {
+				for pb := 0; pb <= mpb; pb++ {
 					passes = append(passes, pass{pb: pb, mem: l})
 				}
 			}
@@ -1086,7 +1097,7 @@ func finish(rep *Report) {
 		fmt.Println()
 	}
 	for id, m := range rep.Known {
-		fmt.Printf("KNOWN-FINDING: property=%s %s: %s\n", rep.Property, id, m)
+		fmt.Printf("KNOWN-FINDING: property=%s %s: %s\n", rep.Property, id, strings.ReplaceAll(m, "\n", " | "))
 	}
 	real := 0
 	for _, v := range rep.Violations {
